@@ -21,7 +21,19 @@ pub mod serde_json {
             ensures final(self)@ == old(self)@.insert(k@, v) { unimplemented!() }
     }
 }
-pub uninterp spec fn base64_std(b: Seq<u8>) -> Seq<char>;
+/// base64::prelude engines: each alphabet / padding variant is its own text (uninterpreted); the property wants the STANDARD one
+pub enum B64Kind { Standard, StandardNoPad, UrlSafe, UrlSafeNoPad }
+pub struct B64Engine { pub kind: B64Kind }
+pub uninterp spec fn b64_text(k: B64Kind, b: Seq<u8>) -> Seq<char>;
+pub open spec fn base64_std(b: Seq<u8>) -> Seq<char> { b64_text(B64Kind::Standard, b) }
+pub const BASE64_STANDARD: B64Engine = B64Engine { kind: B64Kind::Standard };
+pub const BASE64_STANDARD_NO_PAD: B64Engine = B64Engine { kind: B64Kind::StandardNoPad };
+pub const BASE64_URL_SAFE: B64Engine = B64Engine { kind: B64Kind::UrlSafe };
+pub const BASE64_URL_SAFE_NO_PAD: B64Engine = B64Engine { kind: B64Kind::UrlSafeNoPad };
+impl B64Engine {
+    /// `ENGINE.encode(bytes).to_string().into()` (R6: the String -> serde_json::Value conversion is folded into the stand-in)
+    #[verifier::external_body] pub fn encode_json(&self, b: &[u8]) -> (r: serde_json::Value) ensures r matches serde_json::Value::String(t) && t@ == b64_text(self.kind, b@) { unimplemented!() }
+}
 pub uninterp spec fn rfc3339(t: chrono::DateTime<chrono::FixedOffset>) -> Seq<char>;
 // R6 wrappers for the `.into()` conversions (From<i64|u64|f64|String|bool> for serde_json::Value) and the text encoders
 #[verifier::external_body] pub fn __json_i64(i: i64) -> (r: serde_json::Value) ensures r == serde_json::Value::Number(serde_json::num_i64(i as int)) { unimplemented!() }
